@@ -394,6 +394,24 @@ def shrink(case):
         yield [case[0], init[:i] + init[i + 1:], ops]
 
 
+# ---------------------------------------------------------------- the source-level tie (tools/py2coq.py)
+
+
+def extra_obligations(tier):
+    """The methods getlist, append, __delitem__, setlist, poplist, __setitem__ of MultiMapping / MutableMultiMapping are translated to
+    Gallina, one by one, from the source in BAIZE_REPO as it is now (self._list and self._dict threaded and returned, `==` on
+    keys an argument), and coqc re-checks, per method, the part of C17/Translated.v about it (translated method = the
+    function of C17.Model for every key, value, pair list and dict: same _list and _dict afterwards, same result, KeyError
+    exactly when the model says so) against the fresh definitions.  One obligation per method: a method the translator
+    refuses (not applicable, no alarm) does not hide the others."""
+    import importlib.util
+    import os
+    spec = importlib.util.spec_from_file_location("py2coq", os.path.join(core.VERIF, "tools", "py2coq.py"))
+    py2coq = importlib.util.module_from_spec(spec)
+    spec.loader.exec_module(py2coq)
+    return py2coq.obligations(PID, core.REPO, core.VERIF)
+
+
 if __name__ == "__main__":
     import sys
     core.main(sys.modules[__name__])
